@@ -82,6 +82,8 @@ def matches(exp, obs):
     """Python-side comparison for S2C: equality, except the spec's explicit 'unconstrained' marker."""
     if isinstance(exp, dict) and "anystr" in exp:
         return isinstance(obs, dict) and "v" in obs
+    if isinstance(exp, dict) and "anyerr" in exp:
+        return isinstance(obs, dict) and "err" in obs
     if isinstance(exp, dict) and "anybool" in exp:
         return isinstance(obs, dict) and isinstance(obs.get("v"), bool)
     return exp == obs
@@ -873,3 +875,87 @@ def _linkify_classify(fn, x, cfg, exp, obs):
 
 
 CLASSIFY["Linkify"] = _linkify_classify
+
+
+# ============================================================================ C44 Options
+
+def _opt_project(v, tname):
+    import datetime as _dt
+    from fractions import Fraction
+    if tname == "str":
+        return cps(v) if type(v) is str else {"bad": "type:" + type(v).__name__}
+    if tname == "int":
+        return v if type(v) is int else {"bad": "type:" + type(v).__name__}
+    if tname == "float":
+        if type(v) is not float:
+            return {"bad": "type:" + type(v).__name__}
+        f = Fraction(repr(v))                       # the decimal the float prints as (shortest repr)
+        return {"num": f.numerator, "den": f.denominator}
+    if tname == "bool":
+        return v if type(v) is bool else {"bad": "type:" + type(v).__name__}
+    if tname == "datetime":
+        if type(v) is not _dt.datetime or v.tzinfo is not None or v.microsecond:
+            return {"bad": "datetime shape"}
+        return [v.year, v.month, v.day, v.hour, v.minute, v.second]
+    if tname == "timedelta":
+        if type(v) is not _dt.timedelta:
+            return {"bad": "type:" + type(v).__name__}
+        return {"s": v.days * 86400 + v.seconds, "us": v.microseconds}
+    raise ValueError(tname)
+
+
+@adapter("Options", "parse")
+def _a(x, cfg):
+    import contextlib
+    import datetime as _dt
+    import io
+    import tempfile
+    from tornado import options as to
+    from . import tlc
+    tname, mult, src = cfg["type"], cfg["mult"], cfg["src"]
+    types = {"str": str, "int": int, "float": float, "bool": bool, "datetime": _dt.datetime, "timedelta": _dt.timedelta}
+    defaults = {"str": "<default>", "int": -999, "float": -9.75, "bool": None, "datetime": _dt.datetime(1970, 1, 1),
+                "timedelta": _dt.timedelta(days=999)}
+    default = [defaults[tname]] if mult else defaults[tname]
+    p = to.OptionParser()
+    p.define("my_opt", default=default, type=types[tname], multiple=mult)
+    p.define("other", default=5, type=int)
+    text = ",".join(T(part) for part in x)
+    with contextlib.redirect_stderr(io.StringIO()):
+        if src in ("cmd", "flag", "unknown", "unset"):
+            args = {"cmd": ["prog", "--my-opt=" + text], "flag": ["prog", "--my-opt"],
+                    "unknown": ["prog", "--no-such-option=" + text], "unset": ["prog"]}[src]
+            rest = p.parse_command_line(args)
+            if rest:
+                return {"err": "leftover arguments"}
+        else:
+            body = "my_opt = %r\n" % text if src == "cfgstr" else "my_opt = %s\n" % text
+            import os
+            os.makedirs(tlc.SCRATCH, exist_ok=True)
+            with tempfile.NamedTemporaryFile("wb", suffix=".conf", dir=tlc.SCRATCH, delete=True) as f:
+                f.write(body.encode("utf-8"))
+                f.flush()
+                p.parse_config_file(f.name)
+    if p.other != 5:
+        return {"err": "another option changed"}
+    v = p.my_opt
+    if v is default or (src == "unset" and v == default):
+        return {"v": ["default"]}
+    if mult:
+        if type(v) is not list:
+            return {"err": "type:" + type(v).__name__}
+        out = [_opt_project(z, tname) for z in v]
+    else:
+        out = _opt_project(v, tname)
+    bad = [o for o in (out if mult else [out]) if isinstance(o, dict) and "bad" in o]
+    if bad:
+        return {"err": bad[0]["bad"]}
+    return {"v": out}
+
+
+def _options_classify(fn, x, cfg, exp, obs):
+    return {"type": cfg.get("type"), "mult": cfg.get("mult"), "src": cfg.get("src"),
+            "empty_text": all(len(part) == 0 for part in x) and len(x) > 0}
+
+
+CLASSIFY["Options"] = _options_classify
